@@ -113,4 +113,19 @@ def run(ctx):
     drive(ctx, R.row_tensor_cases(), exec_affine, n)
 
 
-SUBCHECKS = {"affine": {"run": run, "execute": exec_affine}}
+def _order():
+    from checks import prelude
+
+    return prelude.make_order(R.row_tensor_cases(), exec_affine, lambda c: [c["dtype"], c["qtype"], c["axis"], c["group_size"]])
+
+
+def run_order(ctx):
+    strategy, execute = _order()
+    drive(ctx, strategy, execute, max(1, int(ctx.params["n"] * ctx.params.get("scale", 1))))
+
+
+def exec_order(case):
+    return _order()[1](case)
+
+
+SUBCHECKS = {"affine": {"run": run, "execute": exec_affine}, "order": {"run": run_order, "execute": exec_order}}
